@@ -16,7 +16,7 @@ G = [k / 2.0 for k in range(-6, 7)]
 def same(i, m, vals, stratum):
     """exact on the grid; on random doubles the arithmetic outputs (differences, sums, products) are rounded, so compare
     to 4e-16 of the data scale (min/max/floor/ceil outputs are exact under either comparison)"""
-    if stratum == 'random-doubles':
+    if stratum.startswith('random-doubles'):
         return cmp_rel(i, m, 4e-16, max([1.0] + [abs(v) for v in vals]))
     return cmp_exact(i, m)
 
@@ -57,17 +57,16 @@ def rect_un(r, stratum):
         if nonneg(tuple(r)):
             if not all(is_int(x) for x in ex) or not contains_rect(ex, r):
                 return f'expand is not an integral superset: {ex} of {r}'
-            if ex[0] > r[0] - 1 + 1 or False:
-                pass
-            # least: shrinking any side by one unit loses containment
-            if ex[0] + 1 <= r[0] or ex[1] + 1 <= r[1] or ex[2] - 1 >= r[2] or ex[3] - 1 >= r[3]:
+            # least: shrinking any side by one unit loses containment (exact arithmetic: at 1e24 `x + 1 == x` in doubles)
+            Q = Fraction
+            if Q(ex[0]) + 1 <= Q(r[0]) or Q(ex[1]) + 1 <= Q(r[1]) or Q(ex[2]) - 1 >= Q(r[2]) or Q(ex[3]) - 1 >= Q(r[3]):
                 return f'expand is not the smallest integral superset: {ex} of {r}'
             if not all(is_int(x) for x in tr):
                 return f'trunc not integral: {tr}'
             if nonneg(tr) and not contains_rect(r, tr):
                 return f'trunc is not a subset: {tr} of {r}'
             # greatest: growing any side by one unit leaves the original
-            if tr[0] - 1 >= r[0] or tr[1] - 1 >= r[1] or tr[2] + 1 <= r[2] or tr[3] + 1 <= r[3]:
+            if Q(tr[0]) - 1 >= Q(r[0]) or Q(tr[1]) - 1 >= Q(r[1]) or Q(tr[2]) + 1 <= Q(r[2]) or Q(tr[3]) + 1 <= Q(r[3]):
                 return f'trunc is not the largest integral subset: {tr} of {r}'
         for k in range(4):
             if not (fl[k] <= rd[k] <= ce[k]):
@@ -191,6 +190,15 @@ def rnd_double(rng):
     return rng.choice([1e-150, -1e-150, 4503599627370497.5, -0.0, 0.0, 1e15 + 0.5, 2.5, -2.5, 0.49999999999999994])
 
 
+def wide_double(rng, emax):
+    """a finite double of any magnitude up to 2^emax (the quantifier says "randomly over finite doubles": |x| >= 2^52, where every double is an
+    integer, and |x| >= 2^63, where an integer cast saturates, are part of it), either sign, sometimes a whole number"""
+    v = math.ldexp(1.0 + rng.random(), rng.randint(-emax, emax) if rng.random() < 0.5 else rng.randint(40, min(emax, 80)))
+    if rng.random() < 0.2:
+        v = float(math.floor(v))
+    return v if rng.random() < 0.5 else -v
+
+
 def generate(rng, tier):
     allr = list(itertools.product(G, repeat=4))
     for r in allr:
@@ -215,3 +223,9 @@ def generate(rng, tier):
         yield rect_pt(r, [rnd_double(rng), rnd_double(rng)], 'random-doubles')
         yield rounding(rng.choice(['pt', 'vec', 'size']), rnd_double(rng), rnd_double(rng))
         yield exact_line(f'rect.misc {H(*[rng.choice(G) for _ in range(8)])}', 'grid-misc')
+    for _ in range(1500 if tier == 'quick' else 50000):
+        yield rounding(rng.choice(['pt', 'vec', 'size']), wide_double(rng, 1000), wide_double(rng, 1000) if rng.random() < 0.7 else rnd_double(rng))
+        r = [wide_double(rng, 100) if rng.random() < 0.6 else rnd_double(rng) for _ in range(4)]
+        if rng.random() < 0.7:
+            r = [min(r[0], r[2]), min(r[1], r[3]), max(r[0], r[2]), max(r[1], r[3])]
+        yield rect_un(r, 'random-doubles-wide')
